@@ -117,6 +117,20 @@ def lake_build(targets):
 
 # ----------------------------------------------------------------------------- servers
 
+WALL_STALL = 900
+_TICK = os.sysconf('SC_CLK_TCK')
+
+
+def _cpu_seconds(pid):
+    """user + system CPU time consumed so far by the process (all its threads)"""
+    try:
+        with open('/proc/%d/stat' % pid) as f:
+            fields = f.read().rsplit(')', 1)[1].split()
+        return (int(fields[11]) + int(fields[12])) / _TICK
+    except Exception:
+        return 0.0
+
+
 def _serve_once(cmd, lines, out_path, stall_s):
     """run `cmd` over `lines`; returns responses received (list) and status"""
     with tempfile.NamedTemporaryFile('w', dir=WORK, suffix='.req', delete=False) as f:
@@ -131,7 +145,10 @@ def _serve_once(cmd, lines, out_path, stall_s):
                 except Exception:
                     pass
             p = subprocess.Popen(cmd, stdin=fin, stdout=fout, stderr=subprocess.DEVNULL, preexec_fn=pre)
-            last_size, last_t = -1, time.time()
+            # a request "hangs" when the server has burnt `stall_s` seconds of CPU TIME (not wall time: the machine may be
+            # busy and the process descheduled) without producing output; a server that neither computes nor answers for
+            # WALL_STALL seconds of wall time (blocked) counts as hung too
+            last_size, last_cpu, last_t = -1, _cpu_seconds(p.pid), time.time()
             status = 'done'
             while True:
                 try:
@@ -140,9 +157,10 @@ def _serve_once(cmd, lines, out_path, stall_s):
                 except subprocess.TimeoutExpired:
                     pass
                 sz = os.path.getsize(out_path)
+                cpu = _cpu_seconds(p.pid)
                 if sz != last_size:
-                    last_size, last_t = sz, time.time()
-                elif time.time() - last_t > stall_s:
+                    last_size, last_cpu, last_t = sz, cpu, time.time()
+                elif cpu - last_cpu > stall_s or time.time() - last_t > WALL_STALL:
                     p.kill()
                     p.wait()
                     status = 'hang'
@@ -186,11 +204,20 @@ def serve(cmd, requests, stall_s=20, tag='srv'):
         todo = todo[len(resp):]
         if not todo:
             break
-        bad += 1
-        if status == 'hang':
-            out.append('hang')
+        # the request in flight: confirm by running it ALONE in a fresh server (a verdict of `hang` or `crash` must be
+        # reproducible; a server killed from outside or starved once is not the implementation's fault)
+        n += 1
+        op = os.path.join(WORK, '%s.%d.%d.out' % (tag, os.getpid(), n))
+        r1, st1 = _serve_once(cmd, todo[:1], op, stall_s)
+        try:
+            os.unlink(op)
+        except OSError:
+            pass
+        if r1:
+            out.append(r1[0])          # answered normally on its own: not a hang / crash of this request
         else:
-            out.append('crash')       # died (abort / stack overflow / OOM) or exited early
+            bad += 1
+            out.append('hang' if st1 == 'hang' else 'crash')       # died (abort / stack overflow / OOM) or exited early
         todo = todo[1:]
     return out
 
